@@ -631,6 +631,12 @@ def _list_to_object(
     return {_obj_to_key(obj, key_fields): obj for obj in obj_list}
 
 
+def _is_object_list(value) -> bool:
+    return isinstance(value, (list, tuple)) and all(
+        isinstance(item, dict) for item in value
+    )
+
+
 def _validate_dict_match(target: dict, actual: dict) -> ResourceMatch:
     differences: dict[str, str | Difference] = {}
 
@@ -654,7 +660,11 @@ def _validate_dict_match(target: dict, actual: dict) -> ResourceMatch:
         differences[unexpected_key] = "unexpected"
 
     for compare_key in target_keys.intersection(actual_keys):
-        if compare_key in compare_as_map:
+        if (
+            compare_key in compare_as_map
+            and _is_object_list(target[compare_key])
+            and _is_object_list(actual[compare_key])
+        ):
             key_match = _validate_match(
                 _list_to_object(target[compare_key], compare_as_map[compare_key]),
                 _list_to_object(actual[compare_key], compare_as_map[compare_key]),
